@@ -1074,8 +1074,12 @@ def r11(R):
             want = (isinstance(t.op, ast.Or) and lb == 'T') or (
                 isinstance(t.op, ast.And) and lb == 'F')
             if want:
-                cs = {one(strip_not(v)[0] if False else v, lb == 'T')
-                      for v in t.values}
+                def one_n(v, truth):
+                    while isinstance(v, ast.UnaryOp) and isinstance(
+                            v.op, ast.Not):
+                        v, truth = v.operand, not truth
+                    return one(v, truth)
+                cs = {one_n(v, lb == 'T') for v in t.values}
                 if cs == {'later'}:
                     out = 'later'
         return out
